@@ -2,6 +2,7 @@ package main
 
 import (
 	"context"
+	"errors"
 	"fmt"
 	"io"
 	"io/ioutil"
@@ -51,8 +52,20 @@ type loopProven struct {
 // without a proven repetition (=> inconclusive, never a verdict).
 type budgetExceeded struct{ Pages int }
 
+// faultPlan places read faults inside the next load (consumed by begin).
+type faultPlan struct {
+	FailRangeAt int // 1-based ordinal of the LoadRange that fails once (0 = none)
+	FailAfterOK int // > 0: once this many LoadRange replies succeeded, every further LoadRange fails
+	FailLoadAt  int // 1-based ordinal of the point read (Load) that fails once
+}
+
+var errInjectedRead = errors.New("c17: injected storage read failure")
+
 type pageWatch struct {
-	inner kv.Base
+	inner              kv.Base
+	next               *faultPlan // plan for the next load
+	plan               faultPlan
+	okRanges, injected int
 
 	mu        sync.Mutex
 	window    []pageSig // pages since the last successful write
@@ -72,18 +85,41 @@ func newPageWatch(inner kv.Base) *pageWatch { return &pageWatch{inner: inner} }
 func (p *pageWatch) begin(budget int) {
 	p.mu.Lock()
 	p.window, p.trace, p.pages, p.budget, p.minLimit, p.limitErrs, p.loads, p.removed, p.saves = nil, nil, 0, budget, 0, 0, 0, nil, 0
+	p.plan, p.okRanges, p.injected = faultPlan{}, 0, 0
+	if p.next != nil {
+		p.plan, p.next = *p.next, nil
+	}
 	p.mu.Unlock()
 }
 
 func (p *pageWatch) Load(key string) (string, error) {
 	p.mu.Lock()
 	p.loads++
+	fail := p.plan.FailLoadAt > 0 && p.loads == p.plan.FailLoadAt
+	if fail {
+		p.injected++
+	}
 	p.mu.Unlock()
+	if fail {
+		return "", errInjectedRead
+	}
 	return p.inner.Load(key)
 }
 
 func (p *pageWatch) LoadRange(key, endKey string, limit int) ([]string, []string, error) {
-	ks, vs, err := p.inner.LoadRange(key, endKey, limit)
+	p.mu.Lock()
+	fail := (p.plan.FailRangeAt > 0 && p.pages+1 == p.plan.FailRangeAt) || (p.plan.FailAfterOK > 0 && p.okRanges >= p.plan.FailAfterOK)
+	if fail {
+		p.injected++
+	}
+	p.mu.Unlock()
+	var ks, vs []string
+	var err error
+	if fail {
+		err = errInjectedRead
+	} else {
+		ks, vs, err = p.inner.LoadRange(key, endKey, limit)
+	}
 	sig := pageSig{Key: key, Limit: limit, N: len(ks), Err: err != nil}
 	if len(ks) > 0 {
 		sig.First, sig.Last = ks[0], ks[len(ks)-1]
@@ -92,6 +128,8 @@ func (p *pageWatch) LoadRange(key, endKey string, limit int) ([]string, []string
 	p.pages++
 	if err != nil {
 		p.limitErrs++
+	} else {
+		p.okRanges++
 	}
 	if p.minLimit == 0 || limit < p.minLimit {
 		p.minLimit = limit
@@ -156,6 +194,8 @@ func (p *pageWatch) Remove(key string) error {
 	}
 	return err
 }
+
+func (p *pageWatch) injectedFaults() int { p.mu.Lock(); defer p.mu.Unlock(); return p.injected }
 
 func (p *pageWatch) snapshot() (trace []pageSig, pages, minLimit, limitErrs int, removed []string) {
 	p.mu.Lock()
